@@ -80,6 +80,7 @@ func init() {
 			{Name: "history", Flavour: "plain", TimeoutQ: m10, TimeoutT: m60},
 			{Name: "concurrent", Flavour: "race", TimeoutQ: m10, TimeoutT: m60},
 			{Name: "saltpool", Flavour: "race", TimeoutQ: m10, TimeoutT: m60},
+			{Name: "saltpool-time", Flavour: "plain", TimeoutQ: m10, TimeoutT: m60, Weight: 4},
 		},
 	}
 }
